@@ -151,7 +151,7 @@ def pty_resize_leg(run):
 def main(tier, seed, replay=None):
     run = Run(PROP, tier, seed, "proof")
     rng = random.Random(seed)
-    info, problems = proof_gate(PROP, THEOREMS, extra_modules=["Model.All"], thorough=(tier == "thorough"))
+    info, problems = proof_gate_multi([PROP, "C20Shape"], thorough=(tier == "thorough"))
     for p in problems:
         run.tie("proof gate", p)
     drv = build_driver()
